@@ -219,6 +219,15 @@ LookaheadSMTSolver::LALoopRes LookaheadSMTSolver::solveLookahead() {
     return buildAndTraverse<LANode, PlainBuildConfig>(PlainBuildConfig()).first;
 };
 
+// The trail can also hold non-decision variables (e.g. the assumption literal of an empty pushed frame),
+// so its size cannot be compared with the number of decision variables.
+bool LookaheadSMTSolver::allDecisionVarsAssigned() const {
+    for (Var v = 0; v < nVars(); v++) {
+        if (decision[v] and value(v) == l_Undef) { return false; }
+    }
+    return true;
+}
+
 std::pair<LookaheadSMTSolver::laresult, Lit> LookaheadSMTSolver::lookaheadLoop() {
     int pickyWidth = std::min(nVars(), config.sat_picky_w());
     ConflQuota prev = confl_quota;
@@ -332,7 +341,7 @@ std::pair<LookaheadSMTSolver::laresult, Lit> LookaheadSMTSolver::lookaheadLoop()
         }
     }
     Lit best = score->getBest();
-    if (static_cast<unsigned int>(trail.size()) == dec_vars && best == lit_Undef) {
+    if (best == lit_Undef && allDecisionVarsAssigned()) {
         // all variables are set
         return {laresult::la_sat, best};
     }
